@@ -13,6 +13,7 @@ _ORIG = {}
 def _install(S):
     from treadmill import utils
     from treadmill.api import allocation as A
+    symx.pristine_globals(A)     # no memo / cache from an earlier path
     if not _ORIG:
         _ORIG['cpu_units'] = utils.cpu_units
 
@@ -43,7 +44,13 @@ class _Fake:
         if self.missing:
             from treadmill.admin import exc as admin_exceptions
             raise admin_exceptions.NoSuchObjectResult()
-        return self.part
+        # a real admin object builds a new dictionary from LDAP on every get
+        import copy
+        from crosshair.tracers import NoTracing
+        with NoTracing():
+            return copy.copy(self.part) if not isinstance(self.part, dict) \
+                else {k: (list(v) if isinstance(v, list) else v)
+                      for k, v in self.part.items()}
 
 
 def subharnesses(tier):
